@@ -482,9 +482,12 @@ pub fn run_fuzz_lines(rep: &mut Report, seed: u64, prof: u64) -> bool {
     rep.cell("lines-end-profile", &[matches!(end, RunEnd::Ok) as u64, (lines.len() / 50) as u64, prof]);
     match &end {
         RunEnd::Ok => false,
-        RunEnd::Err(e) => {
-            rep.finding("control-line|run-returns-error", || format!("run() returned an error while only control lines were fed to a spinning guest: {} (seed {})", e.lines().next().unwrap_or(""), seed), || format!("check=C15 kind=lines seed={}", seed));
-            true
+        RunEnd::Err(_) => {
+            // an error from run() is a legitimate outcome (a fuzzed `u8:` line may overwrite the
+            // guest's own code or stack, and the guest then fails like any faulty program): C15 asks
+            // for "no panic, no abort", which an error return satisfies
+            rep.count("fuzzed_lines_runs_ending_in_an_error_return", 1);
+            false
         }
         RunEnd::Panic(m) => {
             let mut parts = m.splitn(3, ':');
